@@ -69,6 +69,8 @@ class PyStepClock(object):
                 clock.ticks += 1
 
                 if clock.limit >= 0 and clock.ticks > clock.limit:
+                    clock.limit = -1
+
                     raise StepBudgetExceeded()
 
                 if (clock.hook_at >= 0 and clock.ticks >= clock.hook_at
@@ -166,8 +168,8 @@ def call(fn, limit, hook=None, hook_at=0):
             clock.uninstall()
 
         outcome = ['ok', value]
-    except StepBudgetExceeded:
-        outcome = ['hang']
+    except StepBudgetExceeded as e:
+        outcome = ['hang', raise_site(e)]
     except InjectedFault:
         outcome = ['injected']
     except RecursionError:
